@@ -151,6 +151,15 @@ def compare(eng, op, a, b, s):
     if isinstance(op, (ast.In, ast.NotIn)):
         r = contains(eng, s, b, a)
         return r if isinstance(op, ast.In) else z3.Not(r)
+    if isinstance(op, ast.GtE) and getattr(a, "keys_of", None) is not None:
+        # d.keys() >= {...}: every element of the set is a key of d
+        if isinstance(b, PyConst) and isinstance(b.obj, (set, frozenset)):
+            return z3.And([s.heap.dhas(a.keys_of, eng.as_val(s, PyConst(c)).t) for c in b.obj]) if b.obj else z3.BoolVal(True)
+        bv = eng.as_val(s, b)
+        if kind_of(eng, bv) == "set":
+            k = z3.Const("ks_k", Val)
+            return z3.ForAll([k], z3.Implies(s.heap.dhas(bv.ref, k), s.heap.dhas(a.keys_of, k)), patterns=[s.heap.dhas(bv.ref, k)])
+        raise Unsupported("keys view compared with a non-set")
     if isinstance(op, (ast.Lt, ast.LtE, ast.Gt, ast.GtE)):
         a, b = eng.as_val(s, a), eng.as_val(s, b)
         if a.ty == "int" and b.ty == "int":
